@@ -108,4 +108,25 @@ META["C09"] = {
     "technique": "TLA+ cluster model with InstallSnapshot (TLC) + trace validation of real state transfer",
 }
 
+META["C07"] = {
+    "text": "Cluster.tla enables Crash in every state, in particular between ApplyCompute and ApplyPersist; DurableIsPrefix, NoVersionPanic, "
+            "AppendOnly and ReplicasAgree are model-checked over all crash interleavings. Fault enumeration on the real code: for every store "
+            "write i of a workload and both sides of it, a child process hosting a real RaftNode (real RocksDB WAL, real raft log) kills "
+            "itself with SIGKILL exactly there, is restarted, and TLC validates that the state it reports is the state before or after the "
+            "interrupted atomic write, that replay applies the interrupted entry exactly once (index strictly above the persisted one, "
+            "insertion continues at the next version), that later acknowledgements carry the canonical digests, and that every event "
+            "(also those acknowledged before the crash) has a proof that verifies against the original snapshots.",
+    "note": _CLUSTER_NOTE + " Process death (SIGKILL) is the fault model; power loss is out of scope (QED does not fsync by configuration). "
+            "Random wall-clock SIGKILLs are not used: the crash points are enumerated at the store-write boundary.",
+    "technique": "TLA+ crash model (TLC) + fault enumeration by SIGKILL at every store write, validated by TLC trace checking",
+}
+META["C08"] = {
+    "text": "In Cluster.tla Stop;Restart rebuilds the volatile state from the store (CacheCoherent, VersionCounter) and is invisible to every "
+            "observable. Real code: a child-process node is stopped cleanly at every prefix length (including zero insertions) and "
+            "reopened; its exit status must be 0 (the assertion-enabled RocksDB aborts on leaked references), the gated store must see "
+            "every reader closed, the reloaded (applied index, version) must equal the persisted ones, and all later acknowledgements and "
+            "proofs must equal the canonical ones (TLC); the balloon is additionally closed/reopened at random points on RocksDB.",
+    "note": _CLUSTER_NOTE, "technique": "TLA+ cluster model (TLC) + trace validation of stop/reopen at every prefix incl. process exit status",
+}
+
 NOT_APPLICABLE = {}
